@@ -24,7 +24,7 @@ pub const WITNESSES: &[&str] = &[
     "resent fragment delivered", "duplicate frame delivered", "corrupted frame rejected by Frame::read", "packet id wrapped (20 bit)",
     "frame id wrapped (32 bit)", "sync frame emitted", "sync frame with packet id", "packet window full", "frame window full",
     "TimeSensitive packet dropped by sender", "packet cut across flushes", "rate limited (negative credit)", "send rate reduced",
-    "frame delivered out of order", "receive allocation exhausted (sender stalled)", "multi-fragment packet delivered",
+    "frame delivered out of order", "receive allocation exhausted (sender stalled)", "multi-fragment packet delivered", "acknowledgement group with bit 31 set handed to a sender",
 ];
 
 pub fn witnesses(cfg: &LwCfg, si: &ScriptInfo, tr: &Trace) -> u64 {
@@ -56,6 +56,7 @@ pub fn witnesses(cfg: &LwCfg, si: &ScriptInfo, tr: &Trace) -> u64 {
         if (r.em as i64) < last_em[r.side] { w |= 1 << 13; }
         last_em[r.side] = last_em[r.side].max(r.em as i64);
     }
+    for r in tr.rxs.iter().filter(|r| r.parsed) { if let Some(Frame::AckFrame(a)) = &tr.ems[r.em].frame { if a.frame_acks.iter().any(|g| g.bitfield >> 31 != 0) { w |= 1 << 16; } } }
     let mut prev_rate = [f64::MAX; 2];
     for o in tr.obs.iter() {
         let p = &o.probe;
